@@ -457,9 +457,11 @@ def run(chk):
     for name, fn in segs:
         fn(chk)
     chk.vc_replay["C16."] = replay_history
-    if only:
+    if only and "bounded" not in only.split(","):
         return
     bounded(chk)
+    if only:
+        return
     chk.assumptions += [
         "gevent is cooperative: greenlets switch only inside calls tagged as yielding (AsyncResult.get, Event.wait, socket I/O); logging does not yield",
         "AsyncResult.set stores the value and marks the result ready without switching; AsyncResult.get returns the stored value once ready",
